@@ -113,7 +113,7 @@ def run_impl(case):
     return text, on, off
 
 
-def check_case(ctx, case, m_on, m_rho):
+def check_case(ctx, case, m_on, m_rho, m_gen=None):
     text, on, off = run_impl(case)
     rep = {"spec": text, "data": case["data"], "n": case["n"], "formula": F.to_proto(case["f"]),
            "asserts": [[nm, F.to_proto(b)] for nm, b in case["asserts"]] if case["asserts"] else None,
@@ -150,13 +150,18 @@ def check_case(ctx, case, m_on, m_rho):
     if m_on[0] != "ok" or not same_vals(outs, m_on[1]):
         return None, Violation("mirror runOnline differs from the implementation (which agrees with rho): " + text, rep,
                                failing_input=False, stream="on-d/mirror")
+    if m_gen is not None and (m_gen[0] != "ok" or not same_vals(outs, m_gen[1])):
+        return None, Violation("the operation classes translated from the source (run under the Lean semantics of the Python subset) "
+                               "give %r, the implementation %r: %s" % (m_gen, outs, text), dict(rep, model_generated=m_gen),
+                               failing_input=False, stream="on-d/translated")
     return None, None
 
 
 def model(case):
     outs = common.driver_run([disc.proto_case("ond", case["f"], case["data"], case["n"]),
-                              disc.proto_case("rhot", case["f"], case["data"], case["n"])])
-    return disc.parse_model(outs[0]), disc.parse_model(outs[1])
+                              disc.proto_case("rhot", case["f"], case["data"], case["n"]),
+                              disc.proto_case("ondgen", case["f"], case["data"], case["n"])])
+    return disc.parse_model(outs[0]), disc.parse_model(outs[1]), disc.parse_model(outs[2])
 
 
 def explore(ctx, rng, count):
@@ -172,14 +177,15 @@ def explore(ctx, rng, count):
     for c in cases:
         lines.append(disc.proto_case("ond", c["f"], c["data"], c["n"]))
         lines.append(disc.proto_case("rhot", c["f"], c["data"], c["n"]))
+        lines.append(disc.proto_case("ondgen", c["f"], c["data"], c["n"]))
     outs = common.driver_run(lines)
     for i, c in enumerate(cases):
-        m_on, m_rho = disc.parse_model(outs[2 * i]), disc.parse_model(outs[2 * i + 1])
+        m_on, m_rho, m_gen = (disc.parse_model(outs[3 * i + k]) for k in range(3))
         ctx.evaluations += 1
         ctx.count("stream:" + c["stream"])
         for op in set(F.ops(c["f"])):
             ctx.count("op:" + op)
-        v, d = check_case(ctx, c, m_on, m_rho)
+        v, d = check_case(ctx, c, m_on, m_rho, m_gen)
         if v is None and d is None:
             ctx.traces_validated += 1
             if len(ctx.samples) < 4 and (c["asserts"] or c["stream"] == "duplicate-text"):
